@@ -1,15 +1,949 @@
-//! C14 — not built yet.
+//! C14 — ignore-file discovery finds exactly the applicable files and prunes ignored dirs.
+//!
+//! Bounded-exhaustive enumeration (engine ENUM, DESIGN.md section 7 "C14") of
+//! `ignore_files::from_origin` on materialised trees under /dev/shm.
+//!
+//! *Trees*: origin `o/`; level-1 child sets = all subsets of {test, tests, a} of size <= 2
+//! (prefix-related siblings included); below a level-1 directory: nothing or `a` (quick),
+//! nothing | `a` | `a/a` | {test, tests} (thorough)  -> 19 / 61 shapes, depth <= 3, fan-out
+//! <= 2. Every directory holds a regular non-ignore file `f.txt`.
+//! *Listing order*: every shape is materialised once per sibling creation order (2^k for k
+//! directories with two children; tmpfs lists in creation order, which the harness
+//! verifies by reading the directories back) and every configuration is run on all of them.
+//! *VCS*: none | `.git/` (with decoy ignore files inside it and `info/`) | `.hg/` (thorough).
+//! *Marker mode*: off | every directory (also the ones inside VCS metadata) holds a
+//! non-empty `.ignore` that ignores nothing, so the result shows exactly which directories
+//! were entered.
+//! *Placed files* (<= 2): slot = (directory, `.gitignore` | `.ignore` | `.hgignore`) or an
+//! origin-level VCS file (`.git/info/exclude`, `.bzrignore`, `_darcs/prefs/boring`,
+//! `.fossil-settings/ignore-glob`), an explicit ignore file outside the origin, or a file
+//! named by `core.excludesFile` in `.git/config`; content = empty | comment only | a file
+//! pattern | `a/` | `/test` | `tests/` | `!a/` | `*`.
+//! *Explicit watches*: none | one sub-directory | one file (every directory of the shape).
+//! *Oracle*: the reference walk (`expected`): a directory is entered iff it is the origin, or
+//! its parent is entered and it is not an origin-level VCS metadata directory, it is
+//! related to an explicit watch (below one or above one) when watches are given, and
+//! IgnoreCompose (c03::model) over the files found in its ancestors (+ origin-level VCS
+//! files, explicit files, the excludesFile as global) does not ignore it; the result is
+//! every regular non-empty `.ignore/.gitignore/.hgignore` in an entered directory tagged
+//! with that directory, plus the origin-level VCS files that exist and are non-empty.
+//! Compared as a set of (path, applies_in, applies_to) — explicit ignore files themselves
+//! are left out of the comparison (the statement does not say whether they are returned);
+//! the error list must be empty; identical on every listing order.
+//! Where several files apply in one directory their mutual precedence is taken from the
+//! order of the implementation's own result (listed order = precedence, C03), so no
+//! particular order of `.ignore/.gitignore/.hgignore` is demanded.
+//! Unspecified and skipped: configurations in which an origin-level file would ignore the
+//! origin itself (C03's "file stored in that very directory" exclusion).
+//!
+//! Deviations from DESIGN.md: VCS metadata directories only at the origin level (whether a
+//! nested `.git` is "VCS metadata" is not stated); pairs of placed files are enumerated over
+//! a reduced kind/content grammar in quick (see `configs`).
+
+use std::{
+	collections::{BTreeMap, BTreeSet},
+	path::{Path, PathBuf},
+};
+
 use dex::orch::Tier;
-use serde_json::Value;
+use ignore_files::{from_origin, IgnoreFilesFromOriginArgs};
+use project_origins::ProjectType;
+use serde_json::{json, Value};
 
-use crate::common::EnumOut;
+use crate::{
+	c03::model::{Compose, MFile},
+	common::{par_map, EnumOut, Scratch},
+};
 
-pub fn replay(_input: &Value) -> Vec<(String, String)> {
-	vec![]
+const NAMES: [&str; 3] = [".ignore", ".gitignore", ".hgignore"];
+const VCS_DIRS: [&str; 7] = [".git", ".hg", ".bzr", "_darcs", ".fossil-settings", ".svn", ".pijul"];
+const MARKER: &str = "zz-marker-matches-nothing\n";
+const CONTENTS: [&str; 8] = ["", "# only a comment\n", "x.log\n", "a/\n", "/test\n", "tests/\n", "!a/\n", "*\n"];
+const CONTENTS_PAIR: [&str; 5] = ["x.log\n", "a/\n", "!a/\n", "/test\n", "*\n"];
+
+fn tag_for(name: &str) -> Option<ProjectType> {
+	match name {
+		".gitignore" => Some(ProjectType::Git),
+		".hgignore" => Some(ProjectType::Mercurial),
+		_ => None,
+	}
 }
 
-pub fn run(_tier: Tier, _seed: u64) -> EnumOut {
-	let mut o = EnumOut::new("not built");
-	o.machinery = Some("check not built yet".into());
-	o
+// ----------------------------------------------------------------------------- shapes
+
+#[derive(Clone, Debug, PartialEq, Eq)]
+struct Node {
+	name: String,
+	kids: Vec<Node>,
+}
+
+fn leaf(n: &str) -> Node {
+	Node { name: n.into(), kids: vec![] }
+}
+
+fn sub_options(tier: Tier) -> Vec<Vec<Node>> {
+	let mut v = vec![vec![], vec![leaf("a")]];
+	if tier == Tier::Thorough {
+		v.push(vec![Node { name: "a".into(), kids: vec![leaf("a")] }]);
+		v.push(vec![leaf("test"), leaf("tests")]);
+	}
+	v
+}
+
+fn shapes(tier: Tier) -> Vec<Node> {
+	let l1: [&[&str]; 7] = [&[], &["test"], &["tests"], &["a"], &["test", "tests"], &["test", "a"], &["tests", "a"]];
+	let subs = sub_options(tier);
+	let mut out = vec![];
+	for set in l1 {
+		let mut partial: Vec<Vec<Node>> = vec![vec![]];
+		for name in set {
+			let mut next = vec![];
+			for p in &partial {
+				for s in &subs {
+					let mut q = p.clone();
+					q.push(Node { name: (*name).into(), kids: s.clone() });
+					next.push(q);
+				}
+			}
+			partial = next;
+		}
+		for kids in partial {
+			out.push(Node { name: String::new(), kids });
+		}
+	}
+	out
+}
+
+/// all sibling creation orders
+fn orderings(n: &Node) -> Vec<Node> {
+	let mut kid_variants: Vec<Vec<Node>> = vec![vec![]];
+	for k in &n.kids {
+		let mut next = vec![];
+		for v in &kid_variants {
+			for ko in orderings(k) {
+				let mut q = v.clone();
+				q.push(ko);
+				next.push(q);
+			}
+		}
+		kid_variants = next;
+	}
+	let mut out = vec![];
+	for kv in kid_variants {
+		if kv.len() == 2 {
+			out.push(Node { name: n.name.clone(), kids: vec![kv[1].clone(), kv[0].clone()] });
+		}
+		out.push(Node { name: n.name.clone(), kids: kv });
+	}
+	out
+}
+
+/// directories relative to the origin in creation (pre-)order; "" = origin, not included
+fn preorder(n: &Node, prefix: &str, out: &mut Vec<String>) {
+	for k in &n.kids {
+		let p = if prefix.is_empty() { k.name.clone() } else { format!("{prefix}/{}", k.name) };
+		out.push(p.clone());
+		preorder(k, &p, out);
+	}
+}
+
+fn node_from_dirs(dirs: &[String]) -> Node {
+	fn insert(n: &mut Node, parts: &[&str]) {
+		if parts.is_empty() {
+			return;
+		}
+		if let Some(k) = n.kids.iter_mut().find(|k| k.name == parts[0]) {
+			insert(k, &parts[1..]);
+		} else {
+			let mut k = leaf(parts[0]);
+			insert(&mut k, &parts[1..]);
+			n.kids.push(k);
+		}
+	}
+	let mut root = leaf("");
+	for d in dirs {
+		insert(&mut root, &d.split('/').collect::<Vec<_>>());
+	}
+	root
+}
+
+// ----------------------------------------------------------------------------- configs
+
+#[derive(Clone, Copy, Debug, PartialEq, Eq, Hash)]
+enum Vcs {
+	None,
+	Git,
+	Hg,
+}
+
+impl Vcs {
+	fn name(self) -> &'static str {
+		match self {
+			Vcs::None => "none",
+			Vcs::Git => "git",
+			Vcs::Hg => "hg",
+		}
+	}
+	fn parse(s: &str) -> Vcs {
+		match s {
+			"git" => Vcs::Git,
+			"hg" => Vcs::Hg,
+			_ => Vcs::None,
+		}
+	}
+	/// metadata directories (relative to the origin) that exist with this option
+	fn dirs(self) -> &'static [&'static str] {
+		match self {
+			Vcs::None => &[],
+			Vcs::Git => &[".git", ".git/info", ".git/sub"],
+			Vcs::Hg => &[".hg", ".hg/store"],
+		}
+	}
+	/// decoy ignore files inside the metadata (must never be returned)
+	fn decoys(self) -> &'static [&'static str] {
+		match self {
+			Vcs::None => &[],
+			Vcs::Git => &[".git/.gitignore", ".git/sub/.gitignore", ".git/sub/.ignore"],
+			Vcs::Hg => &[".hg/.hgignore", ".hg/store/.ignore"],
+		}
+	}
+}
+
+#[derive(Clone, Debug, PartialEq, Eq, Hash)]
+enum Slot {
+	Dir { dir: String, name: &'static str },
+	GitInfoExclude,
+	Bzr,
+	Darcs,
+	Fossil,
+	Explicit,
+	GitConfigExcludes,
+}
+
+impl Slot {
+	fn label(&self) -> String {
+		match self {
+			Slot::Dir { dir, name } => format!("dir:{dir}:{name}"),
+			Slot::GitInfoExclude => "git-info-exclude".into(),
+			Slot::Bzr => "bzrignore".into(),
+			Slot::Darcs => "darcs-boring".into(),
+			Slot::Fossil => "fossil-ignore-glob".into(),
+			Slot::Explicit => "explicit-ignore-file".into(),
+			Slot::GitConfigExcludes => "git-config-excludesfile".into(),
+		}
+	}
+	fn parse(s: &str) -> Option<Slot> {
+		Some(match s {
+			"git-info-exclude" => Slot::GitInfoExclude,
+			"bzrignore" => Slot::Bzr,
+			"darcs-boring" => Slot::Darcs,
+			"fossil-ignore-glob" => Slot::Fossil,
+			"explicit-ignore-file" => Slot::Explicit,
+			"git-config-excludesfile" => Slot::GitConfigExcludes,
+			other => {
+				let mut it = other.splitn(3, ':');
+				if it.next()? != "dir" {
+					return None;
+				}
+				let dir = it.next()?.to_string();
+				let name = it.next()?;
+				Slot::Dir { dir, name: NAMES.iter().copied().find(|n| *n == name)? }
+			}
+		})
+	}
+	/// path relative to the origin (`None`: lives outside the origin)
+	fn rel(&self) -> Option<String> {
+		match self {
+			Slot::Dir { dir, name } => Some(if dir.is_empty() { (*name).to_string() } else { format!("{dir}/{name}") }),
+			Slot::GitInfoExclude => Some(".git/info/exclude".into()),
+			Slot::Bzr => Some(".bzrignore".into()),
+			Slot::Darcs => Some("_darcs/prefs/boring".into()),
+			Slot::Fossil => Some(".fossil-settings/ignore-glob".into()),
+			Slot::Explicit | Slot::GitConfigExcludes => None,
+		}
+	}
+}
+
+#[derive(Clone, Debug, PartialEq, Eq, Hash)]
+struct Config {
+	files: Vec<(Slot, String)>,
+	/// relative to the origin
+	watch: Option<String>,
+}
+
+impl Config {
+	fn json(&self, g: &Group) -> Value {
+		json!({
+			"dirs": g.dirs,
+			"vcs": g.vcs.name(),
+			"marker": g.marker,
+			"files": self.files.iter().map(|(s, c)| json!({"slot": s.label(), "content": c})).collect::<Vec<_>>(),
+			"watch": self.watch,
+		})
+	}
+}
+
+/// what is materialised once and shared by many configurations
+#[derive(Clone, Debug)]
+struct Group {
+	/// shape directories in canonical (first) creation order
+	dirs: Vec<String>,
+	shape: Node,
+	vcs: Vcs,
+	marker: bool,
+}
+
+struct Item {
+	group: Group,
+	configs: Vec<Config>,
+}
+
+fn slots_for(g: &Group, tier: Tier) -> Vec<Slot> {
+	let mut v = vec![];
+	for d in std::iter::once(&String::new()).chain(g.dirs.iter()) {
+		for n in NAMES {
+			v.push(Slot::Dir { dir: d.clone(), name: n });
+		}
+	}
+	if g.vcs == Vcs::Git {
+		v.push(Slot::GitInfoExclude);
+		v.push(Slot::GitConfigExcludes);
+	}
+	v.push(Slot::Explicit);
+	v.push(Slot::Bzr);
+	if tier == Tier::Thorough {
+		v.push(Slot::Darcs);
+		v.push(Slot::Fossil);
+	}
+	v
+}
+
+fn watches_for(g: &Group) -> Vec<Option<String>> {
+	let mut v = vec![None];
+	for d in &g.dirs {
+		v.push(Some(d.clone()));
+	}
+	v.push(Some("f.txt".into()));
+	for d in &g.dirs {
+		v.push(Some(format!("{d}/f.txt")));
+	}
+	v
+}
+
+fn configs(g: &Group, tier: Tier) -> Vec<Config> {
+	let slots = slots_for(g, tier);
+	let watches = watches_for(g);
+	let mut out = vec![];
+	// no placed file: every watch; one placed file: every slot x every content x every
+	// watch (quick: no watch or a directory watch)
+	let thorough = tier == Tier::Thorough;
+	for w in &watches {
+		out.push(Config { files: vec![], watch: w.clone() });
+		if !thorough && w.as_ref().map_or(false, |w| w.ends_with("f.txt")) {
+			continue;
+		}
+		for s in &slots {
+			for c in CONTENTS {
+				out.push(Config { files: vec![(s.clone(), c.to_string())], watch: w.clone() });
+			}
+		}
+	}
+	// two placed files
+	let contents: &[&str] = if thorough { &CONTENTS } else { &CONTENTS_PAIR };
+	let pair_watches: Vec<Option<String>> = if thorough { watches.iter().filter(|w| w.as_ref().map_or(true, |w| !w.ends_with("f.txt"))).cloned().collect() } else { vec![None] };
+	for (i, s1) in slots.iter().enumerate() {
+		for s2 in &slots[i + 1..] {
+			if !thorough {
+				// quick: directory slots only in the kind combinations (.gitignore,.gitignore),
+				// (.ignore,.hgignore), (.hgignore,.ignore) across directories and all three
+				// mixed pairs inside one directory; origin-level/explicit slots pair with
+				// .gitignore slots only
+				let ok = match (s1, s2) {
+					(Slot::Dir { dir: d1, name: n1 }, Slot::Dir { dir: d2, name: n2 }) => {
+						d1 == d2 || matches!((*n1, *n2), (".gitignore", ".gitignore") | (".ignore", ".hgignore") | (".hgignore", ".ignore"))
+					}
+					(Slot::Dir { name, .. }, _) | (_, Slot::Dir { name, .. }) => *name == ".gitignore",
+					_ => false,
+				};
+				if !ok || (g.marker && g.vcs != Vcs::None) {
+					continue;
+				}
+			}
+			for c1 in contents {
+				for c2 in contents {
+					for w in &pair_watches {
+						out.push(Config { files: vec![(s1.clone(), c1.to_string()), (s2.clone(), c2.to_string())], watch: w.clone() });
+					}
+				}
+			}
+		}
+	}
+	out
+}
+
+fn items(tier: Tier) -> Vec<Item> {
+	let vcss: &[Vcs] = if tier == Tier::Thorough { &[Vcs::None, Vcs::Git, Vcs::Hg] } else { &[Vcs::None, Vcs::Git] };
+	let mut out = vec![];
+	for shape in shapes(tier) {
+		let mut dirs = vec![];
+		preorder(&shape, "", &mut dirs);
+		for vcs in vcss {
+			for marker in [false, true] {
+				let g = Group { dirs: dirs.clone(), shape: shape.clone(), vcs: *vcs, marker };
+				let cfgs = configs(&g, tier);
+				for chunk in cfgs.chunks(400) {
+					out.push(Item { group: g.clone(), configs: chunk.to_vec() });
+				}
+			}
+		}
+	}
+	out
+}
+
+// ----------------------------------------------------------------------------- model
+
+/// abstract description of what is on disk below (and next to) the origin
+struct Disk {
+	/// directories relative to the origin ("" = origin)
+	dirs: BTreeSet<String>,
+	/// ignore-ish files relative to the origin -> content
+	files: BTreeMap<String, String>,
+	explicit: Option<String>,
+	excludes: Option<String>,
+}
+
+fn disk_for(g: &Group, cfg: &Config) -> Disk {
+	let mut dirs: BTreeSet<String> = BTreeSet::new();
+	dirs.insert(String::new());
+	dirs.extend(g.dirs.iter().cloned());
+	dirs.extend(g.vcs.dirs().iter().map(|s| s.to_string()));
+	let mut files = BTreeMap::new();
+	for d in g.vcs.decoys() {
+		files.insert(d.to_string(), "decoy\n".to_string());
+	}
+	if g.marker {
+		for d in &dirs {
+			files.insert(if d.is_empty() { ".ignore".into() } else { format!("{d}/.ignore") }, MARKER.to_string());
+		}
+	}
+	let mut explicit = None;
+	let mut excludes = None;
+	for (s, c) in &cfg.files {
+		match s {
+			Slot::Explicit => explicit = Some(c.clone()),
+			Slot::GitConfigExcludes => excludes = Some(c.clone()),
+			_ => {
+				let rel = s.rel().unwrap();
+				let mut p = Path::new(&rel).parent();
+				while let Some(x) = p {
+					dirs.insert(x.to_string_lossy().to_string());
+					p = x.parent();
+				}
+				files.insert(rel, c.clone());
+			}
+		}
+	}
+	Disk { dirs, files, explicit, excludes }
+}
+
+type Entry = (String, Option<String>, Option<ProjectType>);
+
+struct Expected {
+	/// (path relative to base, applies_in relative to base, applies_to)
+	set: BTreeSet<EntryKey>,
+	/// directory (relative to origin) -> why it was not entered
+	pruned: BTreeMap<String, String>,
+	skipped_empty: Vec<String>,
+	origin_ignored: bool,
+}
+
+#[derive(Clone, Debug, PartialEq, Eq, PartialOrd, Ord, Hash)]
+struct EntryKey {
+	path: String,
+	applies_in: Option<String>,
+	applies_to: String,
+}
+
+fn ekey(e: &Entry) -> EntryKey {
+	EntryKey { path: e.0.clone(), applies_in: e.1.clone(), applies_to: format!("{:?}", e.2) }
+}
+
+fn mlines(content: &str) -> Vec<String> {
+	content.lines().map(str::to_string).collect()
+}
+
+/// The reference walk. `rank` gives the position of a path (relative to origin, or the
+/// absolute path for outside files) in the implementation's result, used only to order
+/// files applying in the same directory.
+fn expected(origin: &Path, disk: &Disk, cfg: &Config, explicit_path: &Path, excludes_path: &Path, rank: &dyn Fn(&str) -> usize) -> Expected {
+	let abs = |rel: &str| if rel.is_empty() { origin.to_path_buf() } else { origin.join(rel) };
+	let mut exp = Expected { set: BTreeSet::new(), pruned: BTreeMap::new(), skipped_empty: vec![], origin_ignored: false };
+	// (rank, model file) for everything found so far
+	let mut acc: Vec<(usize, MFile)> = vec![];
+	if let Some(c) = &disk.explicit {
+		acc.push((rank(&explicit_path.to_string_lossy()), MFile { applies_in: Some(origin.to_path_buf()), lines: mlines(c) }));
+	}
+	if let Some(c) = &disk.excludes {
+		if !c.is_empty() {
+			exp.set.insert(ekey(&(excludes_path.to_string_lossy().to_string(), None, Some(ProjectType::Git))));
+			acc.push((rank(&excludes_path.to_string_lossy()), MFile { applies_in: None, lines: mlines(c) }));
+		} else {
+			exp.skipped_empty.push("core.excludesFile".into());
+		}
+	}
+	for (rel, tag) in [
+		(".bzrignore", ProjectType::Bazaar),
+		("_darcs/prefs/boring", ProjectType::Darcs),
+		(".fossil-settings/ignore-glob", ProjectType::Fossil),
+		(".git/info/exclude", ProjectType::Git),
+	] {
+		if let Some(c) = disk.files.get(rel) {
+			if c.is_empty() {
+				exp.skipped_empty.push(rel.to_string());
+			} else {
+				exp.set.insert(ekey(&(abs(rel).to_string_lossy().to_string(), Some(origin.to_string_lossy().to_string()), Some(tag))));
+				acc.push((rank(rel), MFile { applies_in: Some(origin.to_path_buf()), lines: mlines(c) }));
+			}
+		}
+	}
+	let compose_of = |acc: &Vec<(usize, MFile)>| {
+		let mut v = acc.clone();
+		v.sort_by_key(|(r, _)| *r);
+		Compose::new(origin, &v.into_iter().map(|(_, f)| f).collect::<Vec<_>>())
+	};
+	// unspecified: an origin-level file that matches the origin itself
+	if let Ok(c) = compose_of(&acc) {
+		if c.decide(origin, true, true).ignored {
+			exp.origin_ignored = true;
+		}
+	}
+	let mut stack = vec![String::new()];
+	while let Some(d) = stack.pop() {
+		for n in NAMES {
+			let rel = if d.is_empty() { n.to_string() } else { format!("{d}/{n}") };
+			// a directory of that name is not a file
+			if disk.dirs.contains(&rel) {
+				continue;
+			}
+			if let Some(c) = disk.files.get(&rel) {
+				if c.is_empty() {
+					exp.skipped_empty.push(rel.clone());
+				} else {
+					exp.set.insert(ekey(&(abs(&rel).to_string_lossy().to_string(), Some(abs(&d).to_string_lossy().to_string()), tag_for(n))));
+					acc.push((rank(&rel), MFile { applies_in: Some(abs(&d)), lines: mlines(c) }));
+				}
+			}
+		}
+		let kids: Vec<&String> = disk.dirs.iter().filter(|k| !k.is_empty() && Path::new(k.as_str()).parent().map(|p| p.to_string_lossy().to_string()) == Some(d.clone())).collect();
+		if kids.is_empty() {
+			continue;
+		}
+		// only the files applying in `d` or above it (and the global ones) can bear on d's children
+		let here = abs(&d);
+		let relevant: Vec<(usize, MFile)> = acc.iter().filter(|(_, f)| f.applies_in.as_ref().map_or(true, |a| here.starts_with(a))).cloned().collect();
+		let compose = compose_of(&relevant).expect("model patterns compile");
+		for k in kids {
+			if d.is_empty() && VCS_DIRS.contains(&k.as_str()) {
+				exp.pruned.insert(k.clone(), "vcs-metadata".into());
+				continue;
+			}
+			if let Some(w) = &cfg.watch {
+				let (pk, pw) = (Path::new(k.as_str()), Path::new(w.as_str()));
+				if !(pk.starts_with(pw) || pw.starts_with(pk)) {
+					exp.pruned.insert(k.clone(), "unrelated-to-explicit-watch".into());
+					continue;
+				}
+			}
+			let dec = compose.decide(&abs(k), true, false);
+			if dec.ignored {
+				let by = dec.by.map_or("?".to_string(), |(dir, _, pat)| {
+					format!("{pat:?} applying in {}", dir.map_or("<global>".to_string(), |x| x.strip_prefix(origin).map_or(x.display().to_string(), |r| format!("o/{}", r.display()))))
+				});
+				exp.pruned.insert(k.clone(), format!("ignored by {by}"));
+				continue;
+			}
+			stack.push(k.clone());
+		}
+	}
+	exp
+}
+
+// ----------------------------------------------------------------------------- real side
+
+struct Ctx {
+	base: PathBuf,
+	rt: tokio::runtime::Runtime,
+}
+
+struct Mat {
+	/// one origin per sibling creation order
+	origins: Vec<PathBuf>,
+	creation: Vec<Vec<String>>,
+}
+
+fn write(path: &Path, content: &str) {
+	if let Some(p) = path.parent() {
+		std::fs::create_dir_all(p).expect("mkdir");
+	}
+	std::fs::write(path, content).expect("write");
+}
+
+impl Ctx {
+	fn new(base: &Path) -> Self {
+		std::fs::create_dir_all(base).expect("base");
+		let base = std::fs::canonicalize(base).expect("canonical");
+		std::fs::create_dir_all(base.join("x")).expect("x");
+		Ctx { base, rt: tokio::runtime::Builder::new_current_thread().enable_all().build().expect("runtime") }
+	}
+
+	fn materialise(&self, g: &Group) -> Mat {
+		let mut origins = vec![];
+		let mut creation = vec![];
+		for (j, ord) in orderings(&g.shape).iter().enumerate() {
+			let root = self.base.join(format!("ord{j}"));
+			let _ = std::fs::remove_dir_all(&root);
+			let origin = root.join("o");
+			std::fs::create_dir_all(&origin).expect("origin");
+			let mut dirs = vec![];
+			preorder(ord, "", &mut dirs);
+			let mut all: Vec<String> = g.vcs.dirs().iter().map(|s| s.to_string()).collect();
+			all.extend(dirs.iter().cloned());
+			for d in &all {
+				std::fs::create_dir(origin.join(d)).expect("mkdir");
+			}
+			for d in std::iter::once(&String::new()).chain(all.iter()) {
+				let dir = if d.is_empty() { origin.clone() } else { origin.join(d) };
+				if !VCS_DIRS.iter().any(|v| d.split('/').next() == Some(*v)) {
+					write(&dir.join("f.txt"), "data\n");
+				}
+				if g.marker {
+					write(&dir.join(".ignore"), MARKER);
+				}
+			}
+			for d in g.vcs.decoys() {
+				write(&origin.join(d), "decoy\n");
+			}
+			origins.push(origin);
+			creation.push(dirs);
+		}
+		Mat { origins, creation }
+	}
+}
+
+/// order in which the directory lists its sub-directories right now
+fn listing(dir: &Path) -> Vec<String> {
+	std::fs::read_dir(dir)
+		.map(|rd| rd.filter_map(Result::ok).filter(|e| e.file_type().map_or(false, |t| t.is_dir())).map(|e| e.file_name().to_string_lossy().to_string()).filter(|n| !n.starts_with('.') && !n.starts_with('_')).collect())
+		.unwrap_or_default()
+}
+
+struct Placed {
+	created_files: Vec<PathBuf>,
+	restore: Vec<(PathBuf, String)>,
+	created_dirs: Vec<PathBuf>,
+}
+
+fn place(origin: &Path, g: &Group, cfg: &Config, explicit_path: &Path, excludes_path: &Path) -> Placed {
+	let mut pl = Placed { created_files: vec![], restore: vec![], created_dirs: vec![] };
+	for (s, c) in &cfg.files {
+		let path = match s {
+			Slot::Explicit => explicit_path.to_path_buf(),
+			Slot::GitConfigExcludes => {
+				let cfgp = origin.join(".git/config");
+				write(&cfgp, &format!("[core]\n\texcludesFile = {}\n", excludes_path.display()));
+				pl.created_files.push(cfgp);
+				excludes_path.to_path_buf()
+			}
+			_ => origin.join(s.rel().unwrap()),
+		};
+		// directories created on demand (_darcs/prefs, .fossil-settings)
+		let mut p = path.parent();
+		let mut missing = vec![];
+		while let Some(x) = p {
+			if x.exists() {
+				break;
+			}
+			missing.push(x.to_path_buf());
+			p = x.parent();
+		}
+		for m in missing.iter().rev() {
+			std::fs::create_dir(m).expect("mkdir on demand");
+		}
+		pl.created_dirs.extend(missing);
+		if g.marker && matches!(s, Slot::Dir { name: ".ignore", .. }) {
+			pl.restore.push((path.clone(), MARKER.to_string()));
+		} else {
+			pl.created_files.push(path.clone());
+		}
+		std::fs::write(&path, c).expect("write placed file");
+	}
+	pl
+}
+
+fn unplace(pl: Placed) {
+	for f in pl.created_files {
+		let _ = std::fs::remove_file(f);
+	}
+	for (p, c) in pl.restore {
+		let _ = std::fs::write(p, c);
+	}
+	for d in pl.created_dirs {
+		let _ = std::fs::remove_dir(d);
+	}
+}
+
+struct Viol {
+	key: String,
+	detail: String,
+}
+
+struct Eval {
+	calls: u64,
+	viols: Vec<Viol>,
+	nontrivial: Option<(Vec<EntryKey>, Vec<(String, String)>, Vec<String>)>,
+	unspecified: bool,
+	sample: Value,
+}
+
+fn rel_to(base: &Path, p: &str) -> String {
+	Path::new(p).strip_prefix(base).map_or(p.to_string(), |r| r.display().to_string())
+}
+
+fn eval_config(ctx: &Ctx, g: &Group, mat: &Mat, cfg: &Config) -> Eval {
+	let disk = disk_for(g, cfg);
+	let mut ev = Eval { calls: 0, viols: vec![], nontrivial: None, unspecified: false, sample: Value::Null };
+	// per listing order: violations found there
+	let mut per_order: Vec<Vec<(String, String)>> = vec![];
+	let mut rel_results: Vec<BTreeSet<EntryKey>> = vec![];
+	for (j, origin) in mat.origins.iter().enumerate() {
+		let root = origin.parent().unwrap();
+		let explicit_path = ctx.base.join("x/explicit.ignore");
+		let excludes_path = ctx.base.join("x/excludes.ignore");
+		let pl = place(origin, g, cfg, &explicit_path, &excludes_path);
+		let watches: Vec<PathBuf> = cfg.watch.iter().map(|w| origin.join(w)).collect();
+		let explicit: Vec<PathBuf> = if disk.explicit.is_some() { vec![explicit_path.clone()] } else { vec![] };
+		let args = IgnoreFilesFromOriginArgs::new(origin, watches, explicit.clone()).expect("well-formed args");
+		let res = std::panic::catch_unwind(std::panic::AssertUnwindSafe(|| ctx.rt.block_on(from_origin(args))));
+		unplace(pl);
+		ev.calls += 1;
+		let mut viols: Vec<(String, String)> = vec![];
+		let (files, errors) = match res {
+			Ok(r) => r,
+			Err(_) => {
+				per_order.push(vec![("C14/panic".into(), "from_origin panicked".into())]);
+				rel_results.push(BTreeSet::new());
+				continue;
+			}
+		};
+		let order: Vec<String> = files.iter().map(|f| f.path.strip_prefix(origin).map_or(f.path.to_string_lossy().to_string(), |r| r.to_string_lossy().to_string())).collect();
+		let rank = |p: &str| order.iter().position(|x| x == p).unwrap_or(usize::MAX / 2);
+		let exp = expected(origin, &disk, cfg, &explicit_path, &excludes_path, &rank);
+		if exp.origin_ignored {
+			ev.unspecified = true;
+			return ev;
+		}
+		let got_entries: Vec<EntryKey> = files
+			.iter()
+			.filter(|f| !explicit.contains(&f.path))
+			.map(|f| ekey(&(f.path.to_string_lossy().to_string(), f.applies_in.as_ref().map(|p| p.to_string_lossy().to_string()), f.applies_to)))
+			.collect();
+		let got: BTreeSet<EntryKey> = got_entries.iter().cloned().collect();
+		if got.len() != got_entries.len() {
+			viols.push(("C14/duplicate-entry".into(), format!("result lists a file twice: {:?}", got_entries.iter().map(|e| rel_to(root, &e.path)).collect::<Vec<_>>())));
+		}
+		if !errors.is_empty() {
+			viols.push(("C14/errors-reported".into(), format!("error list not empty: {:?}", errors.iter().map(ToString::to_string).collect::<Vec<_>>())));
+		}
+		for e in exp.set.difference(&got) {
+			let relp = rel_to(origin, &e.path);
+			if let Some(other) = got.iter().find(|x| x.path == e.path) {
+				let what = if other.applies_in != e.applies_in { "wrong-applies-in" } else { "wrong-applies-to" };
+				let name = Path::new(&relp).file_name().map_or(String::new(), |n| n.to_string_lossy().to_string());
+				viols.push((
+					format!("C14/{what}/{name}"),
+					format!("{relp}: tagged applies_in={:?} applies_to={}, expected applies_in={:?} applies_to={}", other.applies_in.as_ref().map(|p| rel_to(root, p)), other.applies_to, e.applies_in.as_ref().map(|p| rel_to(root, p)), e.applies_to),
+				));
+			} else {
+				let base_name = Path::new(&relp).file_name().map_or(String::new(), |n| n.to_string_lossy().to_string());
+				let kind = if Path::new(&relp).is_absolute() {
+					"core.excludesFile".to_string()
+				} else if NAMES.contains(&relp.as_str()) {
+					"in-origin".to_string()
+				} else if !NAMES.contains(&base_name.as_str()) || relp.starts_with(".git/") {
+					format!("origin-level/{relp}")
+				} else {
+					"in-reachable-subdirectory".to_string()
+				};
+				viols.push((format!("C14/missed/{kind}"), format!("{relp} is non-empty and its directory is reachable, but it was not returned")));
+			}
+		}
+		for e in got.difference(&exp.set) {
+			if exp.set.iter().any(|x| x.path == e.path) {
+				continue; // reported above as wrong tag
+			}
+			let relp = rel_to(origin, &e.path);
+			let dir = Path::new(&relp).parent().map_or(String::new(), |p| p.to_string_lossy().to_string());
+			// why the model did not return it
+			let mut why = None;
+			let mut cur: Option<&Path> = Some(Path::new(&dir));
+			while let Some(x) = cur {
+				let xs = x.to_string_lossy().to_string();
+				if let Some(r) = exp.pruned.get(&xs) {
+					why = Some((xs.clone(), r.clone()));
+				}
+				cur = x.parent();
+			}
+			let (key, detail) = if let Some((pd, r)) = why {
+				let class = if r.starts_with("ignored by") { "ignored-directory" } else { r.as_str() };
+				(format!("C14/returned-from-pruned-subtree/{class}"), format!("{relp} returned, but directory {pd:?} must not be entered: {r}"))
+			} else if disk.files.get(&relp).map_or(false, String::is_empty) || (Path::new(&relp).is_absolute() && disk.excludes.as_deref() == Some("")) {
+				("C14/returned-empty-file".to_string(), format!("{relp} is empty but was returned"))
+			} else {
+				("C14/returned-unexpected-file".to_string(), format!("{relp} returned (applies_in={:?}) but is not an applicable ignore file", e.applies_in))
+			};
+			viols.push((key, detail));
+		}
+		if j == 0 {
+			let pruned: Vec<(String, String)> = exp.pruned.iter().map(|(k, v)| (k.clone(), v.clone())).collect();
+			if !pruned.is_empty() || !exp.skipped_empty.is_empty() {
+				ev.nontrivial = Some((exp.set.iter().map(|e| EntryKey { path: rel_to(root, &e.path), applies_in: e.applies_in.as_ref().map(|p| rel_to(root, p)), applies_to: e.applies_to.clone() }).collect(), pruned.clone(), exp.skipped_empty.clone()));
+			}
+			ev.sample = json!({
+				"config": cfg.json(g),
+				"returned": got_entries.iter().map(|e| rel_to(origin, &e.path)).collect::<Vec<_>>(),
+				"pruned_by_model": pruned,
+				"empty_skipped": exp.skipped_empty,
+			});
+		}
+		rel_results.push(got.iter().map(|e| EntryKey { path: rel_to(root, &e.path), applies_in: e.applies_in.as_ref().map(|p| rel_to(root, p)), applies_to: e.applies_to.clone() }).collect());
+		per_order.push(viols);
+	}
+	let n_orders = per_order.len();
+	let failing = per_order.iter().filter(|v| !v.is_empty()).count();
+	let order_dependent = rel_results.windows(2).any(|w| w[0] != w[1]);
+	let mut seen = BTreeSet::new();
+	for (j, viols) in per_order.into_iter().enumerate() {
+		for (k, d) in viols {
+			let key = if order_dependent && failing < n_orders { format!("C14/listing-order-dependent/{}", k.trim_start_matches("C14/")) } else { k };
+			if seen.insert(key.clone()) {
+				ev.viols.push(Viol { key, detail: format!("{d} ; sibling creation order {:?} ; config {}", mat.creation[j], cfg.json(g)) });
+			}
+		}
+	}
+	if order_dependent && failing == n_orders {
+		ev.viols.push(Viol { key: "C14/listing-order-dependent/result-differs".into(), detail: format!("result differs between sibling creation orders {:?} ; config {}", mat.creation, cfg.json(g)) });
+	}
+	ev
+}
+
+// ----------------------------------------------------------------------------- entry points
+
+fn parse_case(input: &Value) -> Option<(Group, Config)> {
+	let dirs: Vec<String> = input["dirs"].as_array()?.iter().filter_map(|d| d.as_str().map(str::to_string)).collect();
+	let shape = node_from_dirs(&dirs);
+	let g = Group { dirs, shape, vcs: Vcs::parse(input["vcs"].as_str()?), marker: input["marker"].as_bool()? };
+	let mut files = vec![];
+	for f in input["files"].as_array()? {
+		files.push((Slot::parse(f["slot"].as_str()?)?, f["content"].as_str()?.to_string()));
+	}
+	Some((g, Config { files, watch: input["watch"].as_str().map(str::to_string) }))
+}
+
+pub fn replay(input: &Value) -> Vec<(String, String)> {
+	let Some((g, cfg)) = parse_case(input) else { return vec![("C14/replay/bad-input".into(), "cannot parse case".into())] };
+	let scratch = Scratch::new("c14-replay");
+	let ctx = Ctx::new(&scratch.path().join("t0"));
+	let mat = ctx.materialise(&g);
+	let ev = eval_config(&ctx, &g, &mat, &cfg);
+	ev.viols.into_iter().map(|v| (v.key, v.detail)).collect()
+}
+
+pub fn run(tier: Tier, seed: u64) -> EnumOut {
+	let rule = "configuration = (shape, sibling creation order, vcs option, marker mode, placed files, explicit watch); evaluation = one from_origin call; non-trivial = distinct (expected result, pruned directories with reason, empty files skipped) outcomes of the reference walk in which at least one directory is pruned or one empty file skipped (the all-defaults outcome returns every ignore file of the tree)";
+	let scratch = Scratch::new("c14");
+	let mut its = items(tier);
+	// spread the groups over the workers (par_map hands out contiguous chunks)
+	let n = its.len();
+	let threads = 16usize;
+	let per = n.div_ceil(threads).max(1);
+	let mut order: Vec<usize> = (0..n).collect();
+	if seed != 0 {
+		let mut s = seed ^ 0x9e37_79b9_7f4a_7c15;
+		for i in (1..n).rev() {
+			s = s.wrapping_mul(6364136223846793005).wrapping_add(1442695040888963407);
+			order.swap(i, ((s >> 33) as usize) % (i + 1));
+		}
+	}
+	let mut slots: Vec<Option<Item>> = its.drain(..).map(Some).collect();
+	let mut arranged: Vec<Item> = Vec::with_capacity(n);
+	for t in 0..threads {
+		for k in 0..per {
+			let idx = k * threads + t;
+			if idx < n {
+				if let Some(it) = slots[order[idx]].take() {
+					arranged.push(it);
+				}
+			}
+		}
+	}
+	let root = scratch.path().to_path_buf();
+	let mut out = par_map(&arranged, threads, |chunk, idx| {
+		let mut o = EnumOut::new(rule);
+		let ctx = Ctx::new(&root.join(format!("t{idx}")));
+		let mut unspecified = 0u64;
+		let mut orderings_total = 0u64;
+		let mut orderings_distinct = 0u64;
+		for (ii, item) in chunk.iter().enumerate() {
+			let mat = ctx.materialise(&item.group);
+			// did the creation orders really produce different listings?
+			let mut lists = BTreeSet::new();
+			for (origin, cre) in mat.origins.iter().zip(&mat.creation) {
+				let mut sig = vec![listing(origin)];
+				for d in cre {
+					sig.push(listing(&origin.join(d)));
+				}
+				lists.insert(sig);
+			}
+			orderings_total += mat.origins.len() as u64;
+			orderings_distinct += lists.len() as u64;
+			let stride = (item.configs.len() / 2).max(1);
+			for (ci, cfg) in item.configs.iter().enumerate() {
+				let ev = eval_config(&ctx, &item.group, &mat, cfg);
+				if ev.unspecified {
+					unspecified += 1;
+					continue;
+				}
+				o.states += ev.calls;
+				o.evaluations += ev.calls;
+				if let Some(nt) = &ev.nontrivial {
+					o.nontrivial_mark(nt);
+				}
+				if idx < 6 && ii % 7 == 3 && ci % stride == 1 && ev.nontrivial.is_some() {
+					o.sample(ev.sample.clone());
+				}
+				for v in ev.viols {
+					o.violate(v.key, v.detail, cfg.json(&item.group));
+				}
+			}
+		}
+		o.extra.insert("configs_unspecified_skipped".into(), json!(unspecified));
+		o.extra.insert("materialised_orderings".into(), json!(orderings_total));
+		o.extra.insert("materialised_orderings_with_distinct_listing".into(), json!(orderings_distinct));
+		o
+	});
+	out.rule = rule.to_string();
+	let tot = out.extra.get("materialised_orderings").and_then(Value::as_u64).unwrap_or(0);
+	let dis = out.extra.get("materialised_orderings_with_distinct_listing").and_then(Value::as_u64).unwrap_or(0);
+	if dis < tot {
+		out.caps.push(format!("only {dis} of {tot} sibling creation orders produced a distinct directory listing on this filesystem: listing-order coverage is incomplete"));
+	}
+	out.extra.insert("shapes".into(), json!(shapes(tier).len()));
+	out.assumptions = vec![
+		"trusted base: the ignore crate's single-file Gitignore; IgnoreCompose (c03::model) for directory verdicts".into(),
+		"tmpfs lists directory entries in an order determined by creation order (verified at run time)".into(),
+		"explicit ignore files are not compared (the statement does not say whether they are returned); they do prune".into(),
+		"mutual precedence of several files applying in one directory is taken from the order of the returned list".into(),
+		"VCS metadata directories are placed at the origin level only".into(),
+	];
+	out
 }
